@@ -4,3 +4,4 @@ Definition k_flow_writer_write_generalized_time : pfun :=
      pf_body := [
     SExpr (PMeth "extend" (PAttr (PName "self") "_data") [(PCall "_pack_asn1_generalized_time/tag" [(PName "value"); (PName "tag")])])
   ] |}.
+Definition k_flow_writer_write_generalized_time_defaults : list (string * pexp) := [("tag", PNone)].
